@@ -1330,6 +1330,73 @@ func c11GuardImplies(g Guard, fact func(Guard) bool) bool {
 	return true
 }
 
+// ---------------------------------------------------------------------------
+// Results read per way of returning (C11.4 / C11.6, From / To)
+//
+// `if node == nil { return graph.Empty }; ...; return iterator.NewOrderedNodes(nodes)` has two return instructions, and
+// "this result is given for an absent node" is a fact about the block of the first. The same body moved into a new
+// helper comes back from the normaliser with ONE return: the helper's returns became assignments to a result
+// variable followed by a jump to the end, so the return block is entered over several edges and the result is a phi
+// of that block. What is known when a result is given is then a fact about the EDGE over which the return block is
+// entered (the branch outcomes that dominate the edge's source block and the outcome of its own branch - a superset
+// of what dominates the return block), and the result given is the phi's value on that edge. c11Results lists the
+// results of a function in this sense: one per return block that is entered over a single edge (or is a loop header),
+// one per entering edge otherwise.
+type c11Result struct {
+	ret   *ssa.Return
+	v     ssa.Value       // the value returned (the phi's operand on the edge, for a split return)
+	from  *ssa.BasicBlock // the source block of the entering edge; nil: the return block is not split
+	conds []Guard         // the branch outcomes known when the result is given
+}
+
+// c11SplitReturn: b ends in a return and is entered over several forward edges.
+func c11SplitReturn(b *ssa.BasicBlock) bool {
+	if _, ok := b.Instrs[len(b.Instrs)-1].(*ssa.Return); !ok || len(b.Preds) < 2 {
+		return false
+	}
+	for _, pr := range b.Preds {
+		if b.Dominates(pr) {
+			return false
+		}
+	}
+	return true
+}
+
+func c11Results(fn *ssa.Function, idx int) []c11Result {
+	var out []c11Result
+	for _, b := range fn.Blocks {
+		ret, ok := b.Instrs[len(b.Instrs)-1].(*ssa.Return)
+		if !ok || len(ret.Results) <= idx {
+			continue
+		}
+		v := ret.Results[idx]
+		if !c11SplitReturn(b) {
+			out = append(out, c11Result{ret, v, nil, Guards(b)})
+			continue
+		}
+		for i, pr := range b.Preds {
+			e := v
+			if ph, isPhi := v.(*ssa.Phi); isPhi && ph.Block() == b && i < len(ph.Edges) {
+				e = ph.Edges[i]
+			}
+			out = append(out, c11Result{ret, e, pr, c11EdgeConds(pr, b)})
+		}
+	}
+	return out
+}
+
+// c11ResultTargets: the two target predicates of a path search for "a result is given where `excused` does not hold
+// of the branch outcomes known there": the return instruction of an unsplit return block, the entering edge of a split one.
+func c11ResultTargets(excused func([]Guard) bool) (func(ssa.Instruction) bool, func(from, to *ssa.BasicBlock) bool) {
+	target := func(in ssa.Instruction) bool {
+		return IsReturn(in) && !c11SplitReturn(in.Block()) && !excused(Guards(in.Block()))
+	}
+	targetEdge := func(from, to *ssa.BasicBlock) bool {
+		return c11SplitReturn(to) && !excused(c11EdgeConds(from, to))
+	}
+	return target, targetEdge
+}
+
 // c11IsLinkList: t is the Incoming / Outgoing list of a node, or a variable that holds nothing but such lists.
 func c11IsLinkList(t *Term) bool {
 	if t == nil {
